@@ -31,7 +31,8 @@ fn rand_pi(rng: &mut Rng, template: &Value, dynamic: Option<&Value>) -> Value {
     v["padding_addr"] = small(rng);
     v["padding_value"] = hx(rng.felt());
     v["main_page"] = Value::Array((0..n_cells).map(|i| json!({"address": format!("0x{:x}", i + 1), "value": hx(rng.felt())})).collect());
-    v["continuous_page_headers"] = Value::Array((0..n_hdr).map(|_| json!({"start_address": small(rng), "size": small(rng), "hash": hx(rng.felt()), "prod": hx(rng.felt())})).collect());
+    // page sizes include 0 and 1 (an empty page is still a page: its address, size and hash are bound)
+    v["continuous_page_headers"] = Value::Array((0..n_hdr).map(|_| { let sz = match rng.below(4) { 0 => Value::String("0x0".into()), 1 => Value::String("0x1".into()), _ => small(rng) }; json!({"start_address": small(rng), "size": sz, "hash": hx(rng.felt()), "prod": hx(rng.felt())}) }).collect());
     if let Some(d) = dynamic {
         let mut d = d.clone();
         for (_, x) in d.as_object_mut().unwrap().iter_mut() {
@@ -61,13 +62,24 @@ pub fn run(args: &Args) -> Report {
         total.inconclusive("no honest public input available");
         return total;
     }
-    let dynamic_tpl: Option<Value> = seeds.iter().find_map(|(_, v)| v.get("dynamic_params").cloned());
+    // a dynamic-layout public input is part of every build's seeds (the only shipped dynamic proof is a
+    // stone6 one, but PublicInput::get_hash must bind the dynamic parameters under stone5 as well)
+    if !seeds.iter().any(|(_, v)| v.get("dynamic_params").map(|d| !d.is_null()).unwrap_or(false)) {
+        for f in crate::load::shipped(&repo).into_iter().filter(|f| f.layout == "dynamic") {
+            if let Some(p) = std::fs::read_to_string(&f.path).ok().and_then(|t| crate::stone::load(&t).ok()).and_then(|l| l.proof().ok()) {
+                seeds.push((format!("{} (public input only; proof of another build)", f.name), serde_json::to_value(&p.public_input).unwrap()));
+                total.inc("dynamic_seed_from_another_build");
+                break;
+            }
+        }
+    }
+    let dynamic_tpl: Option<Value> = seeds.iter().find_map(|(_, v)| v.get("dynamic_params").filter(|d| !d.is_null()).cloned());
     let static_tpl = seeds.iter().find(|(_, v)| v.get("dynamic_params").is_none()).map(|(_, v)| v.clone()).unwrap_or(seeds[0].1.clone());
     let n_rand = if thorough { 300 } else { 24 };
     let mut r = base.fork("rand");
     for k in 0..n_rand {
         let use_dyn = dynamic_tpl.is_some() && k % 6 == 5;
-        let tpl = if use_dyn { seeds.iter().find(|(_, v)| v.get("dynamic_params").is_some()).unwrap().1.clone() } else { static_tpl.clone() };
+        let tpl = if use_dyn { seeds.iter().find(|(_, v)| v.get("dynamic_params").map(|d| !d.is_null()).unwrap_or(false)).unwrap().1.clone() } else { static_tpl.clone() };
         seeds.push((format!("random #{k}"), rand_pi(&mut r, &tpl, if use_dyn { dynamic_tpl.as_ref() } else { None })));
     }
     let rep = par_run(n_threads(), seeds.len() as u64, |si, rep| {
